@@ -1115,8 +1115,13 @@ def r7_receive_ignores_flag(run):
     W: client sends m0 then leaves before the app's next receive:
     receive_text() raises WebSocketDisconnected and m0 is lost.
 
-    Same-class helpers are looked through on both sides: the flag is what
-    ``_send`` reads directly *or in a helper it calls*; on the receive path a
+    The flag is identified by def-use in the pump (the attribute set to True
+    only with a disconnect event in hand), independently of who reads it: a
+    patch that MOVES the sender's bookkeeping (flag -> CLOSED + code) out of
+    ``_send`` into the guard the receive_* methods share (seed s9-c18-3) is
+    judged like one that copies it there.
+    Same-class helpers are looked through on both sides: sender-side code is
+    ``_send`` and what it calls; on the receive path a
     helper that belongs to the sender's side (reachable from ``_send``) is
     legitimate code - the defect is the place where the receive path enters it,
     so the violation is the call (or property read) in the receive-side
@@ -1124,14 +1129,26 @@ def r7_receive_ignores_flag(run):
     p = run.project
     ws = p.cls('falcon.asgi.ws.WebSocket')
     recv = p.cls('falcon.asgi.ws._BufferedReceiver')
-    # the flag(s): boolean attributes the pump sets to True on a disconnect event and that WebSocket._send reads
-    pump_sets = set()
-    for f in recv.methods.values():
-        for n in walk_self(f.node):
-            if isinstance(n, ast.Assign) and isinstance(n.value, ast.Constant) and n.value.value is True:
-                for t in n.targets:
-                    if isinstance(t, ast.Attribute) and isinstance(t.value, ast.Name) and t.value.id == 'self':
-                        pump_sets.add(t.attr)
+    # the flag(s), by def-use in the pump alone (who READS it is what the rule judges, so the identification must not depend on a
+    # reader): the attributes of the buffered receiver that the pump sets to True at a statement it only executes when the event
+    # it has just pulled is the websocket.disconnect (reachable from the pull, before the next pull, under "type == disconnect"
+    # and not under another event type)
+    ctx = _pump_ctx(run)
+    if recv.methods.get(ctx.f.name) is not ctx.f:
+        raise AnchorError('the pump %s is not a method of _BufferedReceiver' % ctx.f.qual)
+
+    def after_pull(evtype):
+        filt = feasible(ctx.cfg, ctx.atom_for(evtype, None))
+        starts = [y for rn in ctx.recv_nodes for (y, l) in ctx.cfg.succ[rn] if l != 'exc']
+        return flow.reachable(ctx.cfg, starts, avoid_nodes=ctx.recv_nodes, edge_filter=lambda a, b, l: l != 'exc' and filt(a, b, l))
+
+    flags = set()
+    for nid in sorted(after_pull('websocket.disconnect') - after_pull('websocket.receive')):
+        n = ctx.cfg.node(nid)
+        if n.kind == 'stmt' and isinstance(n.ast, ast.Assign) and isinstance(n.ast.value, ast.Constant) and n.ast.value.value is True:
+            flags.update(t.attr for t in n.ast.targets if _self_attr(t))
+    if not flags:
+        raise AnchorError('the disconnect flag (an attribute the pump sets to True only with a websocket.disconnect event in hand) was not identified')
     send = ws.methods.get('_send')
     if send is None:
         raise AnchorError('WebSocket._send not found')
@@ -1140,9 +1157,6 @@ def r7_receive_ignores_flag(run):
     def direct_reads(f: Func, names):
         return [x for x in ast.walk(f.node) if isinstance(x, ast.Attribute) and x.attr in names and isinstance(x.ctx, ast.Load)]
 
-    flags = {x.attr for g in sender_side.values() for x in direct_reads(g, pump_sets)}
-    if not flags:
-        raise AnchorError('the disconnect flag shared by the pump and WebSocket._send was not identified')
     run.extra['c18_sender_side_flag'] = {'flags': sorted(flags), 'read_in': sorted(q for q, g in sender_side.items() if direct_reads(g, flags))}
     entry = [m for name, m in sorted(ws.methods.items()) if name.startswith('receive_')]
     if len(entry) < 3:
